@@ -421,6 +421,12 @@ func runVestCase(ta *TestApp, seed uint64, idx int, rep *Report, profile string)
 			end = t0.Unix() + 1 + rng.I64n(10000000)
 		}
 		bacc := app.AccountKeeper.NewAccountWithAddress(ctx, e.addrs[id]).(*authtypes.BaseAccount)
+		if rng.Chance(15) {
+			// the chain's first account: its account number is 0 — a number like any other, not "unset" — and it has signed before
+			bacc.AccountNumber = 0
+			bacc.Sequence = 1 + uint64(rng.Intn(50))
+			rep.Count("setup.vesting_account_with_account_number_zero")
+		}
 		cva := vestingtypes.NewContinuousVestingAccount(bacc, ov, start, end)
 		app.AccountKeeper.SetAccount(ctx, cva)
 		extra := sdk.NewCoins()
@@ -1402,6 +1408,14 @@ func (e *vestEnv) predicates(ctx sdk.Context, op *vestOp, pre *vestSnap, res opR
 		if v1 != nil {
 			s1, _ := app.AccountKeeper.GetAccount(ctx, e.addrs[op.owner]).(*vestingtypes.ContinuousVestingAccount)
 			rep.Eval("C09.sender_stays_a_continuous_vesting_account", s1 != nil, c, st, fmt.Sprintf("%s: the sender's account is no longer a continuous vesting account", op.term))
+			if s1 != nil {
+				// ... and keeps its identity and schedule: only the original vesting is reduced
+				same := s1.AccountNumber == v0.AccountNumber && s1.Sequence == v0.Sequence && s1.Address == v0.Address && s1.StartTime == v0.StartTime &&
+					s1.EndTime == v0.EndTime && s1.DelegatedVesting.IsEqual(v0.DelegatedVesting) && s1.DelegatedFree.IsEqual(v0.DelegatedFree) &&
+					((s1.PubKey == nil) == (v0.PubKey == nil)) && (s1.PubKey == nil || s1.PubKey.Equal(v0.PubKey))
+				rep.Eval("C09.sender_keeps_its_identity", same, c, st, fmt.Sprintf("%s: account number %d -> %d, sequence %d -> %d, start %d -> %d, end %d -> %d",
+					op.term, v0.AccountNumber, s1.AccountNumber, v0.Sequence, s1.Sequence, v0.StartTime, s1.StartTime, v0.EndTime, s1.EndTime))
+			}
 			for k := 0; k < 5 && s1 != nil; k++ {
 				tt := time.Unix(pre.now.Unix()+e.rng.I64n(v0.EndTime-pre.now.Unix()+2), 0)
 				for _, d := range e.denoms {
